@@ -102,6 +102,7 @@ package dials
 //@ func dials.(*Dials).Events(d) (ch)
 //@   props C04 C08
 //@   safety C08
+//@   flag record dialsEvents
 //@   requires d != nil
 //@   ensures C04_events_is_updates_chan: ch == d.updatesChan
 
@@ -267,7 +268,7 @@ package dials
 //@         && errEv(sentlog_Iface[d.cbch][old(sent)[d.cbch]]).err == theErr(old(rec_compose_cnt), old(vlogLen))
 //@         && errEv(sentlog_Iface[d.cbch][old(sent)[d.cbch]]).oldConfig == old(stored(d).cfg)
 //@         && errEv(sentlog_Iface[d.cbch][old(sent)[d.cbch]]).newConfig == ite(cmpErr(old(rec_compose_cnt)) != nil, nil, pay(cmpRes(old(rec_compose_cnt)))))
-//@   ensures C04_one_error_event_iff_rejected: rec_submitEvent_cnt == old(rec_submitEvent_cnt) + b2i(nv == nil)
+//@   ensures C04_C09_one_error_event_iff_rejected: rec_submitEvent_cnt == old(rec_submitEvent_cnt) + b2i(nv == nil)
 //@        && (nv == nil ==> isErrEv(rec_submitEvent_arg2[old(rec_submitEvent_cnt)]))
 //@   ensures C04_C05_installed: nv != nil ==> nv == pay(cmpRes(old(rec_compose_cnt)))
 //@        && stored(d) != nil && fresh(stored(d)) && stored(d).cfg == nv && stored(d).serial == old(stored(d).serial) + 1
